@@ -51,11 +51,11 @@ pub fn apply(a: &Arch, f: &Fault) -> (Vec<u8>, usize) {
     match f {
         Fault::Flip { off, bit } => {
             b[*off] ^= 1 << (bit % 8);
-            (b, (*off - hl) / CHUNK_TAG)
+            (b, off.saturating_sub(hl) / CHUNK_TAG)
         }
         Fault::Trunc { len } => {
             b.truncate(*len);
-            (b, (*len - hl) / CHUNK_TAG)
+            (b, len.saturating_sub(hl) / CHUNK_TAG)
         }
         Fault::Swap { i, j } => {
             let (si, ei) = chunk_range(a, *i);
